@@ -137,14 +137,17 @@ PROPS: dict[str, dict] = {
         # sqlsel: a SQL Select reads its columns / row bounds / flags from ``target`` while what is executed is what its own
         # attributes record -- the metadata of a Select is truthful exactly if the marker is coherent, so the one construction
         # site of Select objects (Select.apply_skip, class invariant of C17) is verified here as well (seeded change C06-agent5)
-        "modules": ["processor", "sqlsel"],
+        # leaves: the leaves the library builds itself (make_doomed, make_join_identity, iteration make_leaf) discharge the hypothesis below
+        "modules": ["processor", "sqlsel", "leaves"],
         "extra_keys": ["sql._select:Select.apply_skip"],
+        # of its class invariants only the row-coherence one is C06's business (the structural one carries known finding F11 of C17)
+        "only_obligations": {"sql._select:Select.apply_skip": ["select-rows-are-the-recorded-operations-over-the-skip-target", "select-columns-truthful"]},
         # "... so the short-cuts keyed on them never change a result": the consumers named by the property
         # (execute's short-circuits, Join elision in _begin_apply/_finish_apply, Processor chain pruning)
         "depends": ["C01", "C07"],
         "only_clauses": {"iteration._engine:Engine.execute": ["yields-exactly-the-rows-of-direct-evaluation"],
                          "_processor:Processor._process_recursive": ["same-columns-engine-and-rows"]},
-        "assumptions": ["leaf relations declare truthful columns and row bounds (hypothesis of the property)",
+        "assumptions": ["leaf relations the *user* declares have truthful columns and row bounds (hypothesis of the property); for the leaves the library builds itself (doomed, join identity, iteration make_leaf) that is proved (contracts/leaves.py)",
                         "law library spec/laws.py (status per law in coverage.law_library)"],
         "explanation": "truthfulness of columns/min_rows/max_rows as attribute contracts proved per operation class; flags imply content",
     },
@@ -173,14 +176,14 @@ PROPS: dict[str, dict] = {
         "explanation": "commute of every operation class x every node-capable existing operation class (split into cells), all targets: X is a free row sequence",
     },
     "C03": {
-        "modules": ["c20"],
+        "modules": ["c20", "factories"],  # session 4: the public factory methods of BaseRelation are under contract
         "assumptions": ["law library spec/laws.py (status per law in coverage.law_library)",
                         "joins: no column is exposed by both operands without being joined on (the property leaves the provenance of such columns open)",
                         "Engine.append_unary / transfer / conform of lsst.daf.relation.sql are assumed to satisfy the generic engine contracts here (they are the subject of C02/C17)"],
         "explanation": "UnaryOperation.apply, every _begin_apply/_finish_apply, Engine.backtrack_unary (base + iteration), MarkerRelation.reapply, Transfer.simplify, commute (shared with C04)",
     },
     "C05": {
-        "modules": ["c20"],
+        "modules": ["c20", "factories"],  # session 4: the public factory methods of BaseRelation are under contract
         "assumptions": ["law library spec/laws.py (status per law in coverage.law_library)"],
         "explanation": "Slice.then, Sort.then, simplify of every class, every _finish_apply (recursive merging) and the Identity short-cuts of _begin_apply: merged tree has the rows of the two operations in sequence; no exception besides EngineError for unsupported operations",
     },
@@ -191,12 +194,12 @@ PROPS: dict[str, dict] = {
         "explanation": "tree invariants as class invariants proved at every construction site (engine consistency, resolved joins, no placeholder operations, supported expressions, transfers change engine) + no-op clauses",
     },
     "C15": {
-        "modules": ["c20", "sqlsel"],  # sql.Engine.conform is verified here too (tagged C15): locked relations are wrapped, never re-created
+        "modules": ["c20", "sqlsel", "factories"],  # sql.Engine.conform is verified here too (tagged C15): locked relations are wrapped, never re-created
         "assumptions": ["sql.Engine.transfer / materialize / append_* are assumed to satisfy the generic engine contracts here (subject of C17); sql.Engine.conform is verified in this check"],
         "explanation": "Transfer.simplify / Materialization.simplify / Engine.transfer / Engine.materialize / MarkerRelation.reapply / backtrack_unary locked clause",
     },
     "C20": {
-        "modules": ["c20"],
+        "modules": ["c20", "factories"],  # session 4: the public factory methods of BaseRelation are under contract
         "assumptions": ["'leaves every existing relation unchanged' is the frame property of C09"],
         "explanation": "exceptional postconditions (must-raise / raises-only-when) of _begin_apply, apply, binary _begin_apply/_finish_apply, constructors and __getitem__",
     },
@@ -260,7 +263,7 @@ PROPS["C15"].update(
 )
 PROPS["C20"].update(
     level_text="Exceptional postconditions: every _begin_apply and UnaryOperation.apply must raise ColumnError for each documented ill-formedness whatever the preferred-engine options (proved from the body: _begin_apply runs first), and raises it only then; "
-               "Chain/Join _begin_apply/_finish_apply (EngineError/ColumnError), Slice/Calculation/Join/ColumnFunction/PredicateFunction/LeafRelation constructors and BaseRelation.__getitem__ (TypeError/ValueError) likewise.",
+               "Chain/Join _begin_apply/_finish_apply (EngineError/ColumnError), Slice/Calculation/Join/ColumnFunction/PredicateFunction/LeafRelation constructors and BaseRelation.__getitem__ (TypeError/ValueError) likewise. The public factory methods of BaseRelation themselves (with_rows_satisfying, with_calculated_column, with_only_columns, without_duplicates, sorted, chain, materialized, transferred_to) are under contract as well (contracts/factories.py): documented rows, and the must-raise clauses restated at the factory; Relation.join has no contract of its own (its pieces have).",
     level_note=_COMMON_NOTE + "'A rejected call leaves every existing relation unchanged' is the frame property C09, not re-proved here.",
 )
 PROPS["C09"].update(
